@@ -766,7 +766,9 @@ class Grammar(Serialize):
                     exp_options.empty_indices = empty_indices
                     expansion = [x for x in expansion if x!=_EMPTY]
                 else:
-                    exp_options = options
+                    # Each rule gets its own options object, since they are modified in place later
+                    # (priority='invert' would negate an object shared by two alternatives twice)
+                    exp_options = copy(options)
 
                 for sym in expansion:
                     assert isinstance(sym, Symbol)
